@@ -4,6 +4,7 @@ from ..failclean import FailClean
 from ..tables import base_name
 from ..frontend import fmt_loc
 
+RETRY_INLINED = True
 LEVEL = 'other'
 
 
